@@ -90,6 +90,7 @@ void do_call_t(MockT<false>& m, int fn, int a0, int a1, Obs& o) {
     case FN_C: { const MockT<false>& cm = m; o.value = cm.c(a0); o.outcome = OC_RET_INT; break; }
     case FN_U: { std::unique_ptr<Tracked> p(new Tracked(a0)); o.value = m.u(std::move(p)); o.outcome = OC_RET_INT; break; }
     case FN_S: { std::string s = std::to_string(a0); o.sval = m.s(s); o.outcome = OC_RET_STR; break; }
+    case FN_K: { int cell = a0; const MockT<false>& cm = m; const int& r = cm.k(cell); o.refaddr = &r; o.outcome = OC_RET_REF; break; }
     default: break;
   }
 }
@@ -251,7 +252,7 @@ Plan gen_plan_t(uint64_t seed, bool faults) {
   for (int i = 0; i < nmocks; ++i) { Op o; o.kind = OP_NEW_MOCK; p.setup.push_back(o); }
   for (int i = 0; i < nseqs; ++i) { Op o; o.kind = OP_NEW_SEQ; p.setup.push_back(o); }
   int nfocus = rng.range(1, 2), focus[2] = {0, 0};
-  static const int fw[NFN] = {10, 3, 5, 1, 2, 1, 2};
+  static const int fw[NFN] = {10, 3, 5, 1, 2, 1, 2, 1};
   for (int i = 0; i < nfocus; ++i) focus[i] = rng.pick(fw, NFN);
   auto gen_expect = [&](bool want_seq) {
     Op o; o.kind = OP_EXPECT;
